@@ -77,7 +77,7 @@ def gen_cases(rng, tier):
     per = 80 if tier == "thorough" else 60
     cases = []
     ctxs = [_qty.predefined_ctx() for _ in range(n_pre)] + \
-           [_qty.user_ctx(rng, rng.randint(8, 14)) for _ in range(n_user)]
+           [_qty.user_ctx(rng, rng.randint(8, 14), odd_symbols=.6) for _ in range(n_user)]
     for ctx in ctxs:
         ops = []
         plain = [u for u in ctx.units if ctx.units[u]["scale"] is None or ctx.quantum(u) is None]
